@@ -43,3 +43,25 @@ Definition post_commit_file (cp_files ini_files : list (list N)) (keep : list N 
            (f : list N) (attrs : list lattr) (K U : list N) (H : list hunk) : split_res :=
   let ps := post_commit_pathspecs cp_files ini_files keep in
   split_file attrs (hunks_seen ps f K) (hunks_seen ps f U) (hunks_seen ps f H).
+
+(* ------------------------------------------------------------------ the pre-commit checkpoint *)
+(* Source: /repo/src/commands/checkpoint.rs, fn run, `if is_pre_commit { ... }`:
+     let has_no_ai_edits = working_log.all_ai_touched_files().map(|f| f.is_empty()).unwrap_or(true);
+     let has_initial_attributions = !working_log.read_initial_attributions().files.is_empty();
+     if has_no_ai_edits && !has_initial_attributions && !inter_commit_move { return Ok((0, 0, 0)); }
+   The carried claims of INITIAL are positional; the pre-commit checkpoint is what re-anchors them
+   to the content being committed (it diffs against the last checkpoint of the file).  So it must
+   not be skipped while INITIAL names a file -- whatever entries the working log already has.
+   precommit_runs_on_any_initial is regenerated from the source; when the test is anything else
+   the model only knows an unknown predicate (other) of the two file sets. *)
+Definition has_initial_attributions (initial_files touched_files : list (list N))
+           (other : list (list N) -> list (list N) -> bool) : bool :=
+  if precommit_runs_on_any_initial
+  then negb (match initial_files with [] => true | _ => false end)
+  else other initial_files touched_files.
+
+Definition precommit_skipped (no_ai_edits inter_commit_move : bool)
+           (initial_files touched_files : list (list N))
+           (other : list (list N) -> list (list N) -> bool) : bool :=
+  no_ai_edits && negb (has_initial_attributions initial_files touched_files other)
+  && negb inter_commit_move.
